@@ -1107,7 +1107,7 @@ def main(argv: list[str]) -> int:
     idx = 0
     for rec in recs + recsB:
         items2.append((idx, rec, pick_map(idx, rec), FORMATS[(idx + seed) % nfmt], seed * 1000003 + idx))
-        if idx % (2 if thorough else 4) == 0:      # a second pass: next option, another file format
+        if idx % (2 if thorough else 6) == 0:      # a second pass: next option, another file format
             items2.append((idx, rec, pick_map(idx + 1, rec), FORMATS[(idx + seed + 1 + idx // nfmt) % nfmt],
                            seed * 1000003 + idx + 500009))
         idx += 1
@@ -1156,7 +1156,7 @@ def main(argv: list[str]) -> int:
         for i, rec in enumerate(small):
             om = fit(witness_maps[i % len(witness_maps)], rec)
             btasks.append((i, rec, om, FORMATS[i % nfmt], seed * 31 + i, inline2))
-        for i in range(1600 if thorough else 240):
+        for i in range(1600 if thorough else 160):
             rec = rnd.choice(recs)
             om = fit(rnd.choice(witness_maps + [enum]), rec)
             btasks.append((1000 + i, rec, om, rnd.choice(FORMATS), seed * 31 + 1000 + i, inline2))
@@ -1184,7 +1184,7 @@ def main(argv: list[str]) -> int:
 
     # ---- 7. the real command line (subprocess, real typeshed)
     t4 = time.time()
-    ncli = 48 if thorough else 12
+    ncli = 48 if thorough else 8
     rnd = random.Random(seed + 99)
     cli_maps = [maps["disallow_untyped_defs"], maps["strict_optional"], maps["ignore_errors"]]
     with ThreadPoolExecutor(min(12, nproc)) as ex:
